@@ -26,6 +26,10 @@ impl ThreadPool {
 
     /// Returns the number of threads in the pool
     pub fn thread_count(&self) -> usize {
+        #[cfg(fidget_verif)]
+        if let Some(n) = crate::verif::thread_count_override() {
+            return n;
+        }
         match self {
             ThreadPool::Custom(p) => p.current_num_threads(),
             ThreadPool::Global => rayon::current_num_threads(),
@@ -50,6 +54,8 @@ impl CancelToken {
 
     /// Check if the token is cancelled
     pub fn is_cancelled(&self) -> bool {
+        #[cfg(fidget_verif)]
+        crate::verif::event("poll", 0, 0);
         self.0.load(Ordering::Relaxed)
     }
 
